@@ -394,11 +394,20 @@ class ShimThreading:
 class LineMonitor:
     TOOL = 3
 
-    def __init__(self, sched: Sched, prefixes: tuple[str, ...]) -> None:
+    def __init__(self, sched: Sched, prefixes: tuple[str, ...], opcode_prefixes: tuple[str, ...] = ()) -> None:
         self.sched = sched
         self.prefixes = prefixes
+        self.opcode_prefixes = opcode_prefixes  # files in which pre-emption is possible between any two bytecodes
         self.lines = 0
+        self.ops = 0
         self.active = False
+
+    def _cb_op(self, code, offset):
+        if not code.co_filename.startswith(self.opcode_prefixes):
+            return sys.monitoring.DISABLE
+        if self.active and not self.sched.no_preempt:
+            self.ops += 1
+            self.sched.yield_point("op")
 
     def _cb(self, code, line):
         if not code.co_filename.startswith(self.prefixes):
@@ -415,7 +424,11 @@ class LineMonitor:
             m.free_tool_id(self.TOOL)
             m.use_tool_id(self.TOOL, "hv-sched")
         m.register_callback(self.TOOL, m.events.LINE, self._cb)
-        m.set_events(self.TOOL, m.events.LINE)
+        ev = m.events.LINE
+        if self.opcode_prefixes:
+            m.register_callback(self.TOOL, m.events.INSTRUCTION, self._cb_op)
+            ev |= m.events.INSTRUCTION
+        m.set_events(self.TOOL, ev)
         m.restart_events()
         self.active = True
         return self
@@ -425,4 +438,6 @@ class LineMonitor:
         m = sys.monitoring
         m.set_events(self.TOOL, 0)
         m.register_callback(self.TOOL, m.events.LINE, None)
+        if self.opcode_prefixes:
+            m.register_callback(self.TOOL, m.events.INSTRUCTION, None)
         m.free_tool_id(self.TOOL)
